@@ -57,7 +57,9 @@ Proof. exact truncation_errors. Qed.
 
 (* what the code does with a body that stops exactly between two frames, in particular one
    with NO trailers frame at all: all its frames are delivered and the body ends cleanly WITHOUT
-   trailers (the gRPC layer above then reports the missing grpc-status). *)
+   trailers.  The property demands an error only for a cut INSIDE a frame; nothing on this tree
+   turns the missing trailers frame into an error afterwards (tonic's infer_grpc_status maps
+   "HTTP 200, no grpc-status" to Err(None), which Streaming treats as the end of the stream). *)
 Theorem c17_webc_no_trailers_frame : forall fa tl evs,
   frames_ok fa -> trailers_ok tl = true ->
   nlen (encode_trailers tl) <= U32_MAX -> nlen tl <= HM_MAX_NAMES ->
@@ -65,6 +67,64 @@ Theorem c17_webc_no_trailers_frame : forall fa tl evs,
   concat (datas evs) = fcat fa ->
   exists ds, run evs = map OData ds ++ [ONone] /\ concat ds = fcat fa.
 Proof. exact cut_between_frames. Qed.
+
+(* ---------- "otherwise malformed => an error" ---------- *)
+(* In all four cases: valid message frames, then the defect, EVERY byte delivered, EVERY chunking,
+   Pending anywhere.  [run] ends with the error; by c17_webc_error_final every later poll
+   answers None, so the consumer sees exactly one Err and then None. *)
+
+(* (a) a byte that is no legal flag (not 0, 1, 0x80) where a frame has to start, followed by at
+   least four more bytes (with fewer the frame header is incomplete and the EOF error of
+   c17_webc_truncation_errors's kind arises instead): whole frames - possibly NOT all frames that
+   precede the defect: frames buffered together with the bad header are dropped - then
+   Err(E_BadFlag h) *)
+Theorem c17_webc_malformed_bad_flag : forall frames h t evs,
+  frames_ok frames -> h <> 0 -> h <> 1 -> h <> GRPC_WEB_TRAILERS_BIT -> 4 <= nlen t ->
+  only_data_or_pending evs = true ->
+  concat (datas evs) = fcat frames ++ h :: t ->
+  exists ds fa fb,
+    frames = fa ++ fb /\ concat ds = fcat fa /\ run evs = map OData ds ++ [OErr (E_BadFlag h)].
+Proof. exact malformed_bad_flag. Qed.
+
+(* (b) ANY bytes [Y] after a complete valid trailers frame, (c) in particular a second trailers
+   frame: EVERY message frame, then Err(E_DataAfterTrailers); the trailers are not handed out *)
+Theorem c17_webc_malformed_after_trailers : forall frames tl Y evs,
+  frames_ok frames -> trailers_ok tl = true ->
+  nlen (encode_trailers tl) <= U32_MAX -> nlen tl <= HM_MAX_NAMES -> Y <> [] ->
+  only_data_or_pending evs = true ->
+  concat (datas evs) = fcat frames ++ trailers_frame tl ++ Y ->
+  exists ds, run evs = map OData ds ++ [OErr E_DataAfterTrailers] /\ concat ds = fcat frames.
+Proof. exact malformed_after_trailers. Qed.
+
+(* (d) a trailers frame whose block does not decode, whatever the reason (line without ':',
+   illegal header name, illegal header value): EVERY message frame, then that error *)
+Theorem c17_webc_malformed_trailers_block : forall frames P e evs,
+  frames_ok frames -> nlen P <= U32_MAX ->
+  decode_trailers_frame (frame GRPC_WEB_TRAILERS_BIT P) = DErr e ->
+  only_data_or_pending evs = true ->
+  concat (datas evs) = fcat frames ++ frame GRPC_WEB_TRAILERS_BIT P ->
+  exists ds, run evs = map OData ds ++ [OErr e] /\ concat ds = fcat frames.
+Proof. exact malformed_trailers_block. Qed.
+
+(* ... in particular a line without ':' (and without CR) after any valid lines *)
+Theorem c17_webc_malformed_line_without_colon : forall frames tl line rest evs,
+  frames_ok frames -> trailers_ok tl = true -> nlen tl < HM_MAX_NAMES ->
+  (forall x, In x line -> x <> 58 /\ x <> 13) ->
+  let P := encode_trailers tl ++ line ++ 13 :: 10 :: rest in
+  nlen P <= U32_MAX ->
+  only_data_or_pending evs = true ->
+  concat (datas evs) = fcat frames ++ frame GRPC_WEB_TRAILERS_BIT P ->
+  exists ds, run evs = map OData ds ++ [OErr E_NoValue] /\ concat ds = fcat frames.
+Proof. exact malformed_line_without_colon. Qed.
+
+(* the four cases at once, by kind of tail (Proofs/WebClient.v tail_kind, expected_end) *)
+Theorem c17_webc_malformed_errors : forall tk frames evs,
+  tail_ok tk -> frames_ok frames -> only_data_or_pending evs = true ->
+  concat (datas evs) = fcat frames ++ tail_bytes tk ->
+  exists ds fa fb,
+    frames = fa ++ fb /\ concat ds = fcat fa /\ run evs = map OData ds ++ expected_end tk /\
+    (is_bad tk = false -> fb = []).
+Proof. exact malformed_gen. Qed.
 
 (* No busy loop, for EVERY state and EVERY script (malformed bodies, inner errors and HTTP
    trailers included): with fuel [#events + 3] the loop of poll_frame always comes to a result,
@@ -99,6 +159,14 @@ Theorem c17_webc_end_final : forall s i fuel s' i',
   poll_frame fuel s i = (ONone, s', i') ->
   forall fuel2, (1 <= fuel2)%nat -> poll_frame fuel2 s' i' = (ONone, s', i').
 Proof. exact end_final. Qed.
+
+(* Body::is_end_stream (fix f0f96413, F-C17i) keeps the http_body contract: whenever it answers
+   true - over a wrapped body that answers true only at its own end - the next poll returns None,
+   in EVERY state; a hyper-like consumer that stops there loses no frame and no trailers *)
+Theorem c17_webc_is_end_stream_contract : forall s i fuel,
+  call_is_end_stream 1 s i = true -> (2 <= fuel)%nat ->
+  fst (fst (poll_frame fuel s i)) = ONone.
+Proof. exact is_end_stream_contract. Qed.
 
 (* the explicit panic sites: split_to is never out of bounds; HeaderMap::append overflows only
    for a buffered trailers frame of more than 24576 lines *)
@@ -158,6 +226,25 @@ Example c17_truncated_payload :
   Nd [Nd [Nd [Nn 3; Nd [Nn 3]]]; Nd [Nd [Nn 0]; Nd [Nn 0]]; Nn 2; Nn 1].
 Proof. vm_compute. reflexivity. Qed.
 
+(* malformed bodies: bad flag after a frame / stray byte after the trailers / second trailers
+   frame / line without colon *)
+Example c17_malformed_examples :
+  run [EvData (frame 0 [104; 105] ++ [2; 0; 0; 0; 0])] = [OErr (E_BadFlag 2)] /\
+  run [EvData (frame 0 [104; 105]); EvData [2; 0; 0; 0; 0]] = [OData (frame 0 [104; 105]); OErr (E_BadFlag 2)] /\
+  run [EvData (frame 0 [104; 105] ++ trailers_frame ex_tl ++ [0])] = [OData (frame 0 [104; 105]); OErr E_DataAfterTrailers] /\
+  run [EvData (trailers_frame ex_tl); EvPending; EvData (trailers_frame ex_tl)] = [OErr E_DataAfterTrailers] /\
+  run [EvData (frame 128 [97; 98; 99; 13; 10])] = [OErr E_NoValue].
+Proof. repeat split; vm_compute; reflexivity. Qed.
+
+(* F-C17i (fixed by f0f96413): the wrapped body hands over one chunk frame("hi") ++ trailers
+   frame and then reports is_end_stream (as hyper's Incoming does).  A consumer that stops when
+   is_end_stream() is true now receives DATA and the TRAILERS and is stopped by nothing but the
+   end; no frame is left behind *)
+Example c17_is_end_stream_not_early :
+  obs_client_hyper 1 [EvData (frame 0 [104; 105] ++ trailers_frame [([120], [49])])] =
+  Nd [Nd [Nd [Nn 1; Bs (frame 0 [104; 105])]; Nd [Nn 2; Nd [Nd [Bs [120]; Nd [Bs [49]]]]]]; Nn 0; Nd []].
+Proof. vm_compute. reflexivity. Qed.
+
 (* a last trailer line without its CRLF is a trailer (F-C17h) *)
 Example c17_unterminated_line :
   run [EvData (frame 128 [103;114;112;99;45;115;116;97;116;117;115;58;53])] =
@@ -174,6 +261,8 @@ Print Assumptions c17_webc_any_chunking.
 Print Assumptions c17_webc_any_chunking_ows.
 Print Assumptions c17_webc_truncation_errors.
 Print Assumptions c17_webc_no_trailers_frame.
+Print Assumptions c17_webc_malformed_errors.
+Print Assumptions c17_webc_malformed_line_without_colon.
 Print Assumptions c17_webc_no_busy_loop.
 Print Assumptions c17_webc_error_final.
 Print Assumptions c17_webc_end_final.
